@@ -136,7 +136,55 @@ def _syntax_transformers():
             n.body = [b if not isinstance(b, (ast.FunctionDef, ast.ClassDef)) else self._blk([b])[0] for b in n.body]
             return n
 
-    return {"annotated constant locals (x: int = 3)": Annotate, "arithmetic call arguments hoisted into temporaries": Hoist, "augmented assignments written out (x = x + v)": AugPlain,
+    class ReverseMethods(ast.NodeTransformer):  # methods of every class in reverse textual order (other class-level statements stay first)
+        def visit_ClassDef(self, n):
+            self.generic_visit(n)
+            defs = [b for b in n.body if isinstance(b, ast.FunctionDef)]
+            if len({d.name for d in defs}) == len(defs) and len(defs) > 1:
+                rest = [b for b in n.body if not isinstance(b, ast.FunctionDef)]
+                n.body = rest + defs[::-1]
+            return n
+
+    class NoElseReturn(ast.NodeTransformer):  # if c: ...return  else: B   ->   if c: ...return ; B     (pylint no-else-return)
+        def _blk(self, body):
+            out = []
+            for s_ in body:
+                out.append(s_)
+                if isinstance(s_, ast.If) and s_.orelse and s_.body and isinstance(s_.body[-1], (ast.Return, ast.Raise, ast.Continue, ast.Break)) and not (len(s_.orelse) == 1 and isinstance(s_.orelse[0], ast.If)):
+                    tail = s_.orelse
+                    s_.orelse = []
+                    out.extend(tail)
+            return out
+
+        def generic_visit(self, n):
+            super().generic_visit(n)
+            for fld in ("body", "orelse", "finalbody"):
+                b = getattr(n, fld, None)
+                if isinstance(b, list) and b and isinstance(b[0], ast.stmt):
+                    setattr(n, fld, self._blk(b))
+            return n
+
+    class IfToIfExp(ast.NodeTransformer):  # if c: x = a  else: x = b   ->   x = a if c else b   (plain names)
+        def visit_If(self, n):
+            self.generic_visit(n)
+            if len(n.body) == 1 and len(n.orelse) == 1 and isinstance(n.body[0], ast.Assign) and isinstance(n.orelse[0], ast.Assign):
+                a, b = n.body[0], n.orelse[0]
+                if len(a.targets) == 1 and len(b.targets) == 1 and isinstance(a.targets[0], ast.Name) and isinstance(b.targets[0], ast.Name) and a.targets[0].id == b.targets[0].id:
+                    return ast.copy_location(ast.Assign(targets=[a.targets[0]], value=ast.IfExp(test=n.test, body=a.value, orelse=b.value)), n)
+            return n
+
+    class PowToMul(ast.NodeTransformer):  # x ** 2 -> x * x  for names / attribute chains / subscripts of names
+        def visit_BinOp(self, n):
+            self.generic_visit(n)
+            if isinstance(n.op, ast.Pow) and isinstance(n.right, ast.Constant) and n.right.value == 2 and isinstance(n.left, (ast.Name, ast.Attribute)) and not any(isinstance(x, ast.Call) for x in ast.walk(n.left)):
+                import copy
+
+                return ast.copy_location(ast.BinOp(left=n.left, op=ast.Mult(), right=copy.deepcopy(n.left)), n)
+            return n
+
+    return {"methods of every class in reverse order": ReverseMethods, "else after return / raise / continue removed": NoElseReturn,
+            "two-way assignments written as conditional expressions": IfToIfExp, "squares written as products": PowToMul,
+            "annotated constant locals (x: int = 3)": Annotate, "arithmetic call arguments hoisted into temporaries": Hoist, "augmented assignments written out (x = x + v)": AugPlain,
             "print('trace') added to every function and loop body": Trace, "operands of every product swapped": SwapMult,
             "every ordering comparison written the other way round": FlipCmp, "every if/else negated with its branches swapped": NegIf}
 
